@@ -15,6 +15,7 @@ from engine import Case, enc, ShardStats, get_driver
 from model import ACCEPT, REJECT, INCOMPLETE, UNSPEC, CFGF, Opt, Schema
 import schemas as S
 import trace
+import apibfs
 
 PID = 'C07'
 FAM = {s.sid: s for s in S.family_F()}
@@ -33,7 +34,7 @@ def judge(st, sid, case, res, label):
     st.validated += 1
     script = 'schema %s %s\n%s' % (sid, FAM[sid].spec(), case.script())
     if res.status in ('crash', 'hang'):
-        st.violation('%s:%s' % (res.status, engine.sanitizer_summary(res.info)), script, 'clean run', res.info[-1500:])
+        st.violation('%s:%s' % (res.status, engine.sanitizer_summary(res.info)), script, 'clean run', engine.excerpt(res.info))
         return
     hyg = res.first('hyg ')
     m = HYG.match(hyg or '')
@@ -215,8 +216,14 @@ def main():
         for w in alpha:
             shards.append((sid, CM, L, (w,), dl))
     engine.phase(ck, 'E2 full product L=%d' % L, shard_e2, shards)
+    # (3) API sequences with a search path, annotations and pointer-valued options
+    A2 = Schema('A2', apibfs.A1.opts + [Opt('ptr', 'p', '', None, 'pf'), Opt('ptr', 'pl', 'L', None, 'pf')])
+    ops = apibfs.ops_alphabet() + [('setopt', b'p', b'v'), ('setopt', b'pl', b'v'), ('setmulti', b'pl', [b'a', b'b']),
+                                   ('setmulti', b'p', [b'a']), ('setcomment', b'mt', b'c'), ('setcomment', b'pl', b'c')]
+    apibfs.run_bfs(ck, A2, CM, [b'', b'mt a { x = 3 } mt b { } m { } pl = {q}'], ops, 2 if quick else 3, hygiene=True,
+                   setup_lines=['cb_quiet 1', 'addpath A ' + enc(b'/verif/build'), 'addpath A ' + enc(b'/nonexistent')], label='api+hygiene')
     ck.assumptions = ['a counter of live blocks per allocation site is used instead of LeakSanitizer (leaked blocks often stay reachable from scanner globals)',
-                      'the API-sequence part of this property is explored by check C09/C10 machinery (see mc/check_C09.py: hygiene is judged there too)']
+                      'API part: breadth-first search over the C09 operation alphabet plus pointer-value operations, hygiene judged after every history']
     ck.finish('E1 viable-prefix DFS / E2 product over schemas with pointer values, functions, annotations, search path; included-file placements; '
               'non-trivial = distinct texts with at least one completed item or a rejection')
 
